@@ -563,6 +563,26 @@ impl Builder {
         self.module.entry_points.push(inst);
     }
 
+    /// Wraps the raw parameter words of an execution mode in the operand kinds the
+    /// grammar declares for that mode (ids for the `*Id` modes, enumerants, literals otherwise).
+    fn execution_mode_params(
+        execution_mode: spirv::ExecutionMode,
+        params: &[u32],
+    ) -> impl Iterator<Item = dr::Operand> + '_ {
+        let kinds = dr::Operand::ExecutionMode(execution_mode).additional_operands();
+        params.iter().enumerate().map(move |(i, v)| {
+            match kinds.get(i).map(|operand| operand.kind) {
+                Some(crate::grammar::OperandKind::IdRef) => dr::Operand::IdRef(*v),
+                Some(crate::grammar::OperandKind::NamedMaximumNumberOfRegisters) => {
+                    spirv::NamedMaximumNumberOfRegisters::from_u32(*v)
+                        .map(dr::Operand::NamedMaximumNumberOfRegisters)
+                        .unwrap_or(dr::Operand::LiteralBit32(*v))
+                }
+                _ => dr::Operand::LiteralBit32(*v),
+            }
+        })
+    }
+
     /// Appends an OpExecutionMode instruction.
     pub fn execution_mode(
         &mut self,
@@ -574,9 +594,7 @@ impl Builder {
             dr::Operand::IdRef(entry_point),
             dr::Operand::ExecutionMode(execution_mode),
         ];
-        for v in params.as_ref() {
-            operands.push(dr::Operand::LiteralBit32(*v));
-        }
+        operands.extend(Self::execution_mode_params(execution_mode, params.as_ref()));
 
         let inst = dr::Instruction::new(spirv::Op::ExecutionMode, None, None, operands);
         self.module.execution_modes.push(inst);
@@ -593,9 +611,7 @@ impl Builder {
             dr::Operand::IdRef(entry_point),
             dr::Operand::ExecutionMode(execution_mode),
         ];
-        for v in params.as_ref() {
-            operands.push(dr::Operand::LiteralBit32(*v));
-        }
+        operands.extend(Self::execution_mode_params(execution_mode, params.as_ref()));
 
         let inst = dr::Instruction::new(spirv::Op::ExecutionModeId, None, None, operands);
         self.module.execution_modes.push(inst);
